@@ -118,7 +118,7 @@ func writeStats(path string, j *jobCtx) {
 		keys = append(keys, k)
 	}
 	sort.Strings(keys)
-	st := Ev{"events": nEvents, "ops": ops, "distinct": len(distinct), "samples": samples,
+	st := Ev{"events": nEvents, "ops": ops, "distinct": len(distinct) + len(distinctCases), "samples": samples,
 		"states": j.states, "edges": j.edges, "segments": nSegments, "extra": extraStats}
 	b, _ := json.MarshalIndent(st, "", " ")
 	os.WriteFile(path, b, 0o644)
